@@ -290,9 +290,14 @@ pub fn run(ctx: &Ctx) -> i32 {
     let acc = crate::par::run(n, 4, |i, acc| {
         let mut rng = Rng::derive(seed, 0xc15, i as u64);
         let to = ALL[i % 4];
-        let n_in = rng.range(1, 6);
-        let big_ok = i % 40 == 0;
-        let mut sizes: Vec<usize> = (0..n_in).map(|_| *rng.pick(if big_ok { &[5usize, 200, 8190, 70000, 1 << 20, 4 << 20][..] } else { &[5usize, 5, 200, 200, 3000, 8150, 8200, 70000][..] })).collect();
+        // one invocation in forty names hundreds of (small) inputs
+        let many = i % 40 == 7;
+        let n_in = if many { rng.range(100, 400) } else { rng.range(1, 6) };
+        if many {
+            acc.count("invocations_with_hundreds_of_inputs");
+        }
+        let big_ok = i % 40 == 0 && !many;
+        let mut sizes: Vec<usize> = (0..n_in).map(|_| *rng.pick(if big_ok { &[5usize, 200, 8190, 70000, 1 << 20, 4 << 20][..] } else if many { &[5usize, 5, 40, 200][..] } else { &[5usize, 5, 200, 200, 3000, 8150, 8200, 70000][..] })).collect();
         if i % 5 == 2 {
             // one input holds an exact, round number of documents
             let at = rng.below(n_in);
@@ -300,16 +305,16 @@ pub fn run(ctx: &Ctx) -> i32 {
             acc.count("inputs_with_an_exact_round_number_of_documents");
         }
         // failing position: every position in turn, or none
-        let fail_at = if i % 7 == 6 { None } else { Some((i / 4) % n_in) };
+        let fail_at = if i % 7 == 6 { None } else if many { Some(n_in - 1 - rng.below(3)) } else { Some((i / 4) % n_in) };
         let failure = FAILURES[(i / 28) % FAILURES.len()];
         let case = Case { to, sizes, fail_at, failure: if fail_at.is_some() { failure } else { "none" }, stdout_file: (i / 2) % 2 == 0, seed: rng.next() };
         acc.distinct(&format!("{:?}", case));
         acc.sample_every(149, || case.json());
         judge(&case, acc);
     });
-    let rule = format!("{} invocations: 1-6 inputs with sizes from 5 B to 4 MiB (mostly below the 8 KiB stdout buffer, some straddling it, some far above), the failing input at every position in turn (or none), failure kinds {:?}, all four targets, stdout a pipe or a file, some inputs through standard input, some zero-length or blank files, one invocation in five with an input of exactly 256 / 512 / 1000 / 1023 / 1024 / 1025 / 2048 / 3072 / 4096 / 8192 / 10000 / 16384 one-line documents, one name in six not valid UTF-8; every second small input is a generated document in a random source format and spelling (named by its extension) whose last value is an empty string, an empty collection or another value that serializers finish with an unusual final write, delivered as a regular file, on standard input (format detected) or through a FIFO (named with or without its extension); expectation computed with the library; distinct non-trivial = distinct invocations", n, FAILURES);
+    let rule = format!("{} invocations: 1-6 inputs (one invocation in forty: 100-400 small inputs with the failing one near the end) with sizes from 5 B to 4 MiB (mostly below the 8 KiB stdout buffer, some straddling it, some far above), the failing input at every position in turn (or none), failure kinds {:?}, all four targets, stdout a pipe or a file, some inputs through standard input, some zero-length or blank files, one invocation in five with an input of exactly 256 / 512 / 1000 / 1023 / 1024 / 1025 / 2048 / 3072 / 4096 / 8192 / 10000 / 16384 one-line documents, one name in six not valid UTF-8; every second small input is a generated document in a random source format and spelling (named by its extension) whose last value is an empty string, an empty collection or another value that serializers finish with an unusual final write, delivered as a regular file, on standard input (format detected) or through a FIFO (named with or without its extension); expectation computed with the library; distinct non-trivial = distinct invocations", n, FAILURES);
     ev::finish(
-        Finish { ctx, level: "fault_enumeration", rule, assumptions: vec!["how much of the FAILING input's own partial output reaches stdout is left open (anything between nothing and all of it)".into()], extra: serde_json::Map::new(), exhaustive: false, min_distinct: 300, must_reach: vec![("failures_with_earlier_output_below_buffer_size".into(), 100), ("expected_exit_0".into(), 50), ("failing_position_0".into(), 20), ("failing_position_3".into(), 20), ("generated_input_msgpack".into(), 30), ("generated_input_yaml".into(), 30), ("generated_input_json".into(), 30), ("generated_input_on_stdin".into(), 20), ("zero_length_or_blank_input".into(), 50), ("input_names_not_utf8".into(), 100), ("generated_input_through_fifo".into(), 30), ("inputs_with_an_exact_round_number_of_documents".into(), 100)] },
+        Finish { ctx, level: "fault_enumeration", rule, assumptions: vec!["how much of the FAILING input's own partial output reaches stdout is left open (anything between nothing and all of it)".into()], extra: serde_json::Map::new(), exhaustive: false, min_distinct: 300, must_reach: vec![("failures_with_earlier_output_below_buffer_size".into(), 100), ("expected_exit_0".into(), 50), ("failing_position_0".into(), 20), ("failing_position_3".into(), 20), ("generated_input_msgpack".into(), 30), ("generated_input_yaml".into(), 30), ("generated_input_json".into(), 30), ("generated_input_on_stdin".into(), 20), ("zero_length_or_blank_input".into(), 50), ("input_names_not_utf8".into(), 100), ("generated_input_through_fifo".into(), 30), ("inputs_with_an_exact_round_number_of_documents".into(), 100), ("invocations_with_hundreds_of_inputs".into(), 20)] },
         acc,
     )
 }
